@@ -164,7 +164,21 @@ func (e *Engine) AddSubst(from, to string) error {
 // (by fn.String()), and which of them are not in the executed set.
 func (e *Engine) CallSites(callee string, executed map[string]bool) (sites []string, uncovered []string) {
 	seen := map[string]bool{}
+	// "callee|pkgpath": only call sites in functions of that package count
+	onlyPkg := ""
+	if i := strings.Index(callee, "|"); i >= 0 {
+		callee, onlyPkg = callee[:i], callee[i+1:]
+	}
 	for fn := range ssautil.AllFunctions(e.Prog) {
+		if onlyPkg != "" {
+			p := fn.Pkg
+			if p == nil && fn.Parent() != nil {
+				p = fn.Parent().Pkg
+			}
+			if p == nil || p.Pkg.Path() != onlyPkg {
+				continue
+			}
+		}
 		if fn.Pkg == nil || !strings.HasPrefix(fn.Pkg.Pkg.Path(), "github.com/energomonitor/bisquitt") {
 			if fn.Parent() == nil || fn.Parent().Pkg == nil || !strings.HasPrefix(fn.Parent().Pkg.Pkg.Path(), "github.com/energomonitor/bisquitt") {
 				continue
